@@ -586,12 +586,21 @@ impl BuiltInFunction {
                     format!("string bottom index `{top}` could not be used to index (usize)")
                 })?;
 
-                let start = top - bottom + 1;
+                let (Some(head), Some(tail)) = (s.get(..bottom), s.get(top..)) else {
+                    bail!(
+                        "deletion range `{bottom}..{top}` is not valid for a string of length {}",
+                        s.len()
+                    )
+                };
 
-                let mut result = String::with_capacity(s.len() - start);
+                if bottom > top {
+                    bail!("deletion range `{bottom}..{top}` ends before it starts")
+                }
 
-                result.push_str(&s[..bottom]);
-                result.push_str(&s[top..]);
+                let mut result = String::with_capacity(head.len() + tail.len());
+
+                result.push_str(head);
+                result.push_str(tail);
 
                 Ok((Some(Primitive::Str(result)), None))
             }
